@@ -261,6 +261,33 @@ func decodedTypes(p *Prog) map[string]bool {
 
 // literalInit: the store fills a field of a composite literal that has not been handed to anything yet — same block as
 // the allocation, and between the two only field addressing / stores / value construction, no call or escape.
+// intoOwnMake: the store fills (a field of) an element of a slice this function made itself — construction, like a
+// composite literal written out as make + index stores.
+func intoOwnMake(st *ssa.Store) bool {
+	var base ssa.Value = st.Addr
+	sawIndex := false
+	for {
+		switch a := base.(type) {
+		case *ssa.FieldAddr:
+			base = a.X
+			continue
+		case *ssa.IndexAddr:
+			base = a.X
+			sawIndex = true
+			continue
+		}
+		break
+	}
+	_, isMake := base.(*ssa.MakeSlice)
+	if sl, isSl := base.(*ssa.Slice); isSl {
+		// make with constant size is compiled to new([n]T)[:]
+		if al, isAl := sl.X.(*ssa.Alloc); isAl && al.Comment == "makeslice" {
+			isMake = true
+		}
+	}
+	return isMake && sawIndex
+}
+
 func literalInit(st *ssa.Store) bool {
 	var base ssa.Value = st.Addr
 	for {
@@ -372,7 +399,7 @@ func decodedImmutable(c *Ctx, rule string) {
 					default:
 						continue
 					}
-					if literalInit(st) {
+					if literalInit(st) || intoOwnMake(st) {
 						continue
 					}
 					if allowed[what] && c.P.withinOnly(f, validators) {
